@@ -411,7 +411,12 @@ static int mods_load(void) {
         int j;
         for (j = 0; modtab[j].name; ++j)
             if (buffer_eq_slen(m, modtab[j].name, strlen(modtab[j].name))) break;
-        if (NULL == modtab[j].name) return 0;
+        if (NULL == modtab[j].name) {
+            /* (mod_h2 is appended by configfile.c when server.h2proto is on; HTTP/2 requests
+             *  enter this harness below the framing layer, so it is not needed) */
+            if (buffer_eq_slen(m, CONST_STR_LEN("mod_h2"))) continue;
+            return 0;
+        }
         plugin *p = ck_calloc(1, sizeof(plugin));
         if (modtab[j].init(p)) { free(p); return 0; }
         ((plugin **)srv->plugins.ptr)[srv->plugins.used++] = p;
@@ -455,6 +460,7 @@ static int world_init(const unsigned char *cfg, size_t len) {
     con.srv = srv;
     con.fd = -1;
     con.config_data_base = srv->config_data_base;
+    con.plugin_slots = srv->plugin_slots;
     con.srv_socket = &ssock;
     con.proto_default_port = 80;
     con.plugin_ctx = ck_calloc(srv->plugins.used + 1, sizeof(void *));
@@ -583,6 +589,7 @@ int main(void) {
     errh = log_set_global_errh(NULL, 0);
     if (nullfd >= 0 && !getenv("LTV_C03_DEBUG")) errh->fd = nullfd;    /* module diagnostics are not part of the observation */
     chunkqueue_set_tempdirs_default(NULL, 0);
+    strftime_cache_reset();
     int tree_ok = -1;
     while (ltv_next()) {
         if (ltv_ntok < 1) { puts("bad-op"); continue; }
